@@ -463,10 +463,24 @@ def run_ok(case, d):
                           columns=[f"{n}: {dt} ({'n' if fx is None else fx}{''.join(',%d' % t for t in tr)}{',' if not tr else ''})"
                                    for n, dt, tr, fx in SCHEMAS[case['schema']]], fields=fields, mode=mode, stream_bytes=len(got),
                           stream_head=got[:20].hex(), matches_pipe_ref=(got == pipe_ref(filecols, fields)))
+    # file arguments in other orders and with the same path given more than once (argument order, every occurrence counts)
+    ndup = 0
+    if mode != 'cli' and case['first'] >= 0:
+        nf = len(fns)
+        orders = [[0, 0]] + ([[1, 0], [0, 1, 0], [1, 1, 0]] if nf >= 2 else []) + ([[2, 0, 1], [2, 0, 2, 1]] if nf >= 3 else [])
+        for order in orders:
+            for l in lists[:6] + lists[-2:]:
+                fields = [names[i] for i in l]
+                exc, got, info = call(mode, [fns[i] for i in order], fields, False)
+                n = check_stream(probs, f'ok:{mode}:file-order-or-duplicate', _tag(case) + f' file arguments {order}', fields, exc, got, [filecols[i] for i in order])
+                nbytes += n
+                ndup += 1
+                nt.append((case['schema'], tuple(case['rows']), case['comp'], tuple(l), tuple(order)))
     extra = dict(labels)
+    extra['evals_reordered_or_duplicated_files'] = ndup
     extra.update({f'evals_{mode}': len(lists), 'stream_bytes_compared': nbytes, 'field_headers_checked': nhdr,
                   'files_written': len(fns), 'pipe_closed_by_callee': closed, 'stderr_reports_seen': reports})
-    return dict(problems=probs, evals=len(lists), nt=nt, extra=extra, sample=sample,
+    return dict(problems=probs, evals=len(lists) + ndup, nt=nt, extra=extra, sample=sample,
                 max=dict(max_open_fds=len(os.listdir('/proc/self/fd'))))
 
 
